@@ -197,6 +197,11 @@ func (r *Report) Finish(verifDir string) int {
 	for _, k := range rules {
 		fmt.Printf("   %-8s %d/%d\n", k, perRule[k][1], perRule[k][0])
 	}
+	if os.Getenv("VERIF_VERBOSE") != "" {
+		for _, o := range r.Obligs {
+			fmt.Printf("   [%v] %s | %s | %s | %s\n", o.OK, o.Rule, o.Key, o.Pos, o.Detail)
+		}
+	}
 	for _, o := range knownHit {
 		fmt.Printf("KNOWN-FINDING: property=%s %s %s (%s) %s\n", r.Prop, o.Rule, o.Key, o.Pos, o.Detail)
 	}
